@@ -3,9 +3,23 @@
    Layers: F = documented format (Format.v), S = abstract spec (Spec/SpecStep), I = model of the Rust (World.step'). *)
 From Coq Require Import List NArith Bool Arith Sorted.
 From Coq Require Import Strings.Byte.
-Require Import BS.Bytes BS.Common BS.Api BS.Layout BS.Format BS.FormatFacts.
+Require Import BS.Bytes BS.Common BS.Api BS.Layout BS.Format BS.FormatFacts BS.Spec BS.SpecStep.
+Require Import BS.FS BS.FSFacts BS.Meta BS.MetaFacts BS.Header BS.Reader BS.ReaderFacts BS.Index BS.Data BS.DataFacts BS.Seek BS.Series BS.SeriesFacts.
 Import ListNotations.
 
 Theorem C07_forward_codec : forall (p:nat) (l:list line), wf_series p l -> decode p (encode p l) = Some l.
 Proof. exact decode_encode. Qed.
 Print Assumptions C07_forward_codec.
+(* the five section layouts as coded are the documented ones, in both directions *)
+Theorem C07_write_layouts : forall p t, meta_write p (le_enc 8 t) = enc_section p t.
+Proof. exact meta_write_is_section. Qed.
+Print Assumptions C07_write_layouts.
+Theorem C07_read_layouts : forall p a b got,
+  length a = p + 2 -> length b = p + 2 -> Forall (fun s => length s = p + 2) got -> length got = Meta.ncont p ->
+  meta_read_ts p a b got = Layout.read_ts p a b got.
+Proof. exact meta_read_is_read_ts. Qed.
+Print Assumptions C07_read_layouts.
+(* Tie 1: the constants regenerated from the source equal the documented ones *)
+Theorem C07_constants : BSgen.Consts.max_small_ts = MAXD /\ BSgen.Consts.preamble0 = xff /\ BSgen.Consts.preamble1 = xff.
+Proof. split; [|split]; reflexivity. Qed.
+(* partial: header parse/print round trip and the backward direction through open are not proved yet. *)
